@@ -61,6 +61,8 @@ type yieldReq struct {
 	d    time.Duration
 	ch   chan struct{}
 	gid  uint64
+	// inLock: the goroutine holds a library mutex while parked
+	inLock bool
 }
 
 // Stats are per-run reach counters.
@@ -98,6 +100,12 @@ type Driver struct {
 
 	free       bool // free-run mode (C20): no central scheduling
 	hasBare    bool // some election object has no Metrics: its flag is polled
+	// plans with Sched.InLock: who owns which mutex, who waits before which Lock call
+	lockOwn      map[any][]lockOwner
+	gateWait     map[any][]chan struct{}
+	gatedOn      map[uint64]any
+	parkedInLock int
+	deadlockSeen bool
 	ending     bool
 	gids       map[uint64]int
 	gidInst    map[uint64]int // goroutine -> instance it was last seen working for
